@@ -16,18 +16,22 @@ vars == <<prog, val>>
 \* ------------------------------------------------------------- seed universe
 \* coefficient vectors per term (0 included so that zero terms and cancellation occur)
 CoefVecs(n) ==
-  IF n = 1 THEN (IF Universe = "quick" THEN {<<-1>>, <<2>>} ELSE {<<-2>>, <<0>>, <<1>>})
-  ELSE IF n = 2 THEN (IF Universe = "quick" THEN {<<1, -1>>, <<0, 2>>}
+  IF n = 1 THEN (IF Universe \in {"quick", "laws"} THEN {<<-1>>, <<2>>} ELSE {<<-2>>, <<0>>, <<1>>})
+  ELSE IF n = 2 THEN (IF Universe \in {"quick", "laws"} THEN {<<1, -1>>, <<0, 2>>}
                       ELSE {<<1, -1>>, <<0, 2>>, <<-1, 0>>})
   ELSE {[k \in 1..n |-> 1], [k \in 1..n |-> IF k = 1 THEN -1 ELSE 0]}
 \* (names, rows) layouts: one or two indeterminates, up to two terms
-Layouts ==
+AllLayouts ==
   { [names |-> <<0>>, rows |-> <<<<0>>>>], [names |-> <<0>>, rows |-> <<<<1>>>>],
     [names |-> <<0>>, rows |-> <<<<0>>, <<1>>>>], [names |-> <<0>>, rows |-> <<<<2>>, <<1>>>>],
     [names |-> <<1>>, rows |-> <<<<1>>>>], [names |-> <<1>>, rows |-> <<<<0>>, <<2>>>>],
     [names |-> <<0, 1>>, rows |-> <<<<1, 1>>>>], [names |-> <<0, 1>>, rows |-> <<<<1, 0>>, <<0, 1>>>>],
     [names |-> <<0, 2>>, rows |-> <<<<0, 0>>, <<1, 2>>>>] }
-SeedShapes == IF Universe = "quick" THEN {<<>>, <<2>>} ELSE {<<>>, <<2>>, <<2, 1>>}
+\* the "laws" universe is smaller: it is explored with three seeds for associativity / distributivity
+Layouts == IF Universe = "laws"
+           THEN {lay \in AllLayouts : lay.rows \in {<<<<0>>>>, <<<<1>>>>, <<<<0>>, <<1>>>>, <<<<1, 1>>>>}}
+           ELSE AllLayouts
+SeedShapes == IF Universe \in {"quick", "laws"} THEN {<<>>, <<2>>} ELSE {<<>>, <<2>>, <<2, 1>>}
 Seeds ==
   UNION { { [kind |-> "poly", shape |-> s, names |-> lay.names, rows |-> lay.rows, coefs |-> c] :
               c \in [1..Len(lay.rows) -> CoefVecs(Size(s))] } :
